@@ -12,6 +12,8 @@ pub mod c11;
 pub mod c12;
 pub mod c13;
 pub mod c14;
+pub mod c15;
+pub mod c16;
 
 pub type RunFn = fn(&Ctx) -> Finish;
 pub type ReplayFn = fn(&mut Local, &serde_json::Value) -> Result<(), String>;
@@ -30,6 +32,8 @@ pub fn registry() -> Vec<(&'static str, RunFn, ReplayFn)> {
         ("C12", c12::run as RunFn, c12::replay as ReplayFn),
         ("C13", c13::run as RunFn, c13::replay as ReplayFn),
         ("C14", c14::run as RunFn, c14::replay as ReplayFn),
+        ("C15", c15::run as RunFn, c15::replay as ReplayFn),
+        ("C16", c16::run as RunFn, c16::replay as ReplayFn),
     ]
 }
 
